@@ -426,6 +426,18 @@ class Ovld:
 
     def lock(self):
         self._locked = True
+        # Whatever a locked function derives from must not change either
+        for mixin in self.mixins:
+            mixin.lock()
+
+    def _lock_parents(self):
+        for mixin in self.mixins:
+            if self in mixin.children:
+                # Linked: changes to the mixin are propagated to self, but
+                # the mixin may itself derive from unlinked functions
+                mixin._lock_parents()
+            else:
+                mixin.lock()
 
     def _attempt_modify(self):
         if self._locked:
@@ -485,9 +497,7 @@ class Ovld:
         This will also lock this ovld's parent mixins to prevent their
         modification.
         """
-        for mixin in self.mixins:
-            if self not in mixin.children:
-                mixin.lock()
+        self._lock_parents()
 
         if self.name is None:
             self.name = self.__name__ = f"ovld{self.id}"
